@@ -235,8 +235,21 @@ def delopt(b, di, k):
     return m
 
 
+URI_DETAIL_CASES = [(c, r(s)) for s in ("not a uri!!", "a..b#", "..", "a.b.", ".a", "a b", "", "com.example.x")
+                    for c, r in (("Welcome", lambda s: [2, 1, {"roles": {"broker": {}}, "realm": s}]),
+                                 ("Event", lambda s: [36, 1, 2, {"topic": s}]),
+                                 ("Invocation", lambda s: [68, 1, 2, {"procedure": s}]),
+                                 ("Interrupt", lambda s: [69, 1, {"reason": s}]),
+                                 ("Unsubscribed", lambda s: [35, 0, {"subscription": 7, "reason": s}]),
+                                 ("Unregistered", lambda s: [67, 0, {"registration": 7, "reason": s}]))]
+
+
 def gen_struct(tier, rng, sel):
     """yield (label, raw) for the cases selected by `sel`"""
+    # details that are URIs by the WAMP spec (the Spec has its own field table): non-URI strings, every run
+    for cname, raw in URI_DETAIL_CASES:
+        if sel():
+            yield (f"{cname}:uridetail", clone(raw))
     for cname, bases in BASES.items():
         keys = set(EXTRA_KEYS)
         for b in bases:
